@@ -79,6 +79,9 @@ class List(Expression):
         with out.WHILE(True):
             if runtime_max:
                 with out.IF(LEN(staging) == _bound(self.max_len)):
+                    # (Nothing may have been parsed yet: the loop did not end
+                    # with a failing element.)
+                    out += STATUS << True
                     out += BREAK
 
             if self.expr.can_partially_succeed():
